@@ -84,6 +84,19 @@ def oracle(desc, op, exact):
                 probs.append((f'{label}-values', f'max diff {P.maxdiff(P.flat(yj), P.flat(y)):.4g} on vector {k}'))
         if k == 0 and probs:
             break
+    # order of first use: a FRESH copy of a specimen applied under jit first, eagerly afterwards
+    if desc['form'] == 'single':
+        fresh = P.lib('build', U._build, desc['a'], desc['dt'])
+        x0 = xs[0]
+        yj = P.lib('jit-first', lambda: jax.jit(lambda x: fresh.mv(x))(x0))
+        ye = P.lib('eager-after-jit', fresh.mv, x0)
+        if P.actual_struct_sig(yj) != P.actual_struct_sig(ye) or not P.close(P.flat(yj), P.flat(ye), tol):
+            probs.append(('jit-first-then-eager', f'max diff {P.maxdiff(P.flat(yj), P.flat(ye)):.4g}'))
+        if desc['a'] not in U.NO_TRANSPOSE:
+            yt = P.lib('transpose-after-jit', lambda: fresh.T.mv(ye))
+            yt0 = P.lib('transpose', lambda: op.T.mv(ye))
+            if not P.close(P.flat(yt), P.flat(yt0), tol):
+                probs.append(('jit-first-then-transpose', f'max diff {P.maxdiff(P.flat(yt), P.flat(yt0)):.4g}'))
     return probs, True
 
 
@@ -114,6 +127,11 @@ def landscape_case(case):
     try:
         leaves, treedef = jax.tree.flatten(land)
         land2 = jax.tree.unflatten(treedef, leaves)
+        land3 = jax.tree.unflatten(treedef, leaves)   # the same treedef used again must give the same object again
+        if type(land3) is not type(land) or land3.dtype != land.dtype or land3.shape != land.shape or not P.same_struct(land3.structure, land.structure):
+            probs.append(('landscape-second-unflatten', f'{type(land).__name__}: second unflatten of the same treedef gives dtype {land3.dtype}, shape {land3.shape}'))
+        if jax.tree.structure(land2) != jax.tree.structure(land):
+            probs.append(('landscape-treedef-changed', f'{type(land).__name__}: tree structure of the round-tripped object differs'))
     except Exception as e:  # noqa: BLE001
         err = P.LibError('flatten/unflatten', e)
         return [('landscape-roundtrip-raises', f'{type(land).__name__}: {err}\n{err.tb}')]
